@@ -837,11 +837,16 @@ func c31Scenarios() []vsScenario {
 		// termination racing with strobes and the timer
 		return c31Scenario("terminate-race", [][]time.Duration{{0, w}}, true, w, l)
 	}
+	fine := func(l bool) vsScenario {
+		// strobes w/8 apart, then one just inside the window of the second:
+		// one burst, one signal, and none while strobes are still arriving
+		return c31Scenario("fine-gaps+consumer", [][]time.Duration{{0, w / 8, 15 * w / 16}}, true, -1, l)
+	}
 	if !vr.Thorough() && os.Getenv("VERIF_REPLAY") == "" {
 		// Quick: each scenario under one of the two timer-channel semantics.
-		return []vsScenario{burst(false), term(false), gaps(true), edge(true), c31IdleConsumerScenario(false)}
+		return []vsScenario{burst(false), term(false), gaps(true), edge(true), c31IdleConsumerScenario(false), fine(false)}
 	}
-	return []vsScenario{burst(false), gaps(false), edge(false), term(false), c31IdleConsumerScenario(false), burst(true), gaps(true), edge(true), term(true), c31IdleConsumerScenario(true)}
+	return []vsScenario{burst(false), gaps(false), edge(false), term(false), c31IdleConsumerScenario(false), fine(false), burst(true), gaps(true), edge(true), term(true), c31IdleConsumerScenario(true), fine(true)}
 }
 
 func vschedC31(t *testing.T, r *vr.Report) string {
